@@ -45,6 +45,12 @@ def obligations(tier):
                  clause="structure check: user table consulted first, built-in table (closure body, named by an env helper) only when the name is not declared")]
     out += [dict(engine="verus", unit="infix", function="reparse::final_fold", name="C08/infix/reparse_final_fold", source=INFIX + "::reparse (statements after the token loop)",
                  clause="operators still pending when the input is exhausted group to the right, in order, over all operands (nothing dropped, duplicated or swapped); the closing length assertion and the unwraps cannot fire (inductive invariant + lemma)")]
+    out += [dict(engine="verus", unit="layout", function=f, name="C08/layout/" + f.replace("::", "_"), source="parser/src/layout.rs::" + f, clause=c) for f, c in [
+        ("Offside::new", "field-wise constructor"),
+        ("Contexts::push", "pushes the context unless the indentation check refuses; nothing else changes"),
+        ("Contexts::pop", "pops the innermost context"),
+        ("layout_next_token::explicit_in", "explicit `in` closing a let/type/rec context: the body block is opened at the location of the ENCLOSING context with emit_semi = false, the enclosing block's separator flag is cleared, an enclosing rec marker is popped, an OpenBlock token with the span of `in` is queued and `in` is passed on"),
+    ]]
     out += [dict(engine="verus", unit="shrink", function="grammar::BlockExpr::fold_step", name="C08/parser/block_fold_step", source="parser/src/grammar.lalrpop::BlockExpr (the fold closure of the semantic action)",
                  clause="a block `e; rest` becomes Do { bound: e, body: rest } whose span runs from the start of e to the end of rest")]
     out += [dict(engine="verus", unit="shrink", function="shrink_hidden_spans", name="C08/parser/shrink_hidden_spans", source="parser/src/lib.rs::shrink_hidden_spans",
